@@ -13,7 +13,7 @@ from pymbolic.mapper import Mapper
 import pymbolic.primitives as pmbl
 from pymbolic.parser import (
     _openpar, _closepar, _minus, FinalizedTuple, _PREC_UNARY,
-    _PREC_TIMES, _PREC_PLUS, _PREC_CALL, _times, _plus
+    _PREC_TIMES, _PREC_PLUS, _PREC_CALL, _PREC_LOGICAL_AND, _times, _plus
 )
 try:
     from fparser.two.Fortran2003 import Intrinsic_Name
@@ -296,8 +296,15 @@ class ExpressionParser(ParserBase):
 
         if pstate.is_next(_minus):
             pstate.advance()
-            left_exp = pmbl.Product((-1, self.parse_expression(pstate, _PREC_UNARY)))
+            # Fortran: a unary minus has the precedence of the additive operators,
+            # i.e. ``-a**2 == -(a**2)`` and ``-a*b == -(a*b)``
+            left_exp = pmbl.Product((-1, self.parse_expression(pstate, _PREC_PLUS)))
             return left_exp
+        if pstate.is_next(self._f_not):
+            pstate.advance()
+            # Fortran: ``.not.`` binds weaker than any comparison but stronger
+            # than ``.and.``, i.e. ``.not. a == b`` is ``.not. (a == b)``
+            return pmbl.LogicalNot(self.parse_expression(pstate, _PREC_LOGICAL_AND))
         if pstate.is_next(_openpar):
             pstate.advance()
 
@@ -325,7 +332,8 @@ class ExpressionParser(ParserBase):
         did_something = False
         if pstate.is_next(self._f_derived_type) and _PREC_CALL > min_precedence:
             pstate.advance()
-            right_exp = self.parse_expression(pstate, _PREC_PLUS)
+            # the component binds tighter than any operator: ``t%x*b`` is ``(t%x)*b``
+            right_exp = self.parse_expression(pstate, _PREC_UNARY)
             left_exp = pmbl.Lookup(left_exp, right_exp)
             did_something = True
         elif pstate.is_next(_times) and _PREC_TIMES > min_precedence:
